@@ -15,4 +15,4 @@ for n in sorted(os.listdir(sd)):
         cls = mm.group(1) if mm else ""
     needs = m["needs_to_manifest"]
     needs = needs if len(needs) < 150 else needs[:147] + "..."
-    print(f"| {n[:3]} | {m['breaks_property']} | {n[8:]} | {needs} | {'yes' if m.get('confirmed') else 'NO'} | {', '.join(k for k, _ in det) or 'MISSED'} | {cls} |")
+    print(f"| {n[:3]} | {m['breaks_property']} | {n[8:]} | {needs} | {'yes' if m.get('confirmed') else 'NO'} | {', '.join(k for k, _ in det) or ('not claimed (outside the statement)' if m.get('outside_the_statement') else 'MISSED')} | {cls} |")
